@@ -18,7 +18,9 @@ package comp
 // application handler does it / publishes); pubq sub|unsub l id (two goroutines
 // publish at the same time: the first core handler of the first publication
 // is held inside HandleEvent until the second publisher is seen parked inside
-// Publish — goroutine dump — and then (un)subscribes (l,id)).
+// Publish — goroutine dump — and then (un)subscribes (l,id)); pubheld (an
+// application handler of the publication is held inside HandleEvent while
+// another goroutine publishes — must return — and then publishes itself).
 //
 // NOT generated (outside the quantifier of C15, DESIGN §8): a CORE handler
 // that publishes (self-deadlock on muHandle), handlers of uncomparable value
@@ -597,6 +599,101 @@ func evbRunHistory(r *h.Report, d *h.Driver, ops []string, base int) bool {
 					kind += ":performed"
 				}
 			}
+		case "pubheld":
+			// an application handler of publication p1 is HELD inside HandleEvent (by the harness, on a channel) while
+			// another goroutine publishes p2 — Publish must return with the core handlers served, whatever earlier
+			// application handlers are doing — and then publishes p3 itself, still inside HandleEvent
+			p1, p2, p3 := pubN+1, pubN+2, pubN+3
+			pubN += 3
+			ski1, ski2, ski3 := evbPrefix+strconv.Itoa(p1), evbPrefix+strconv.Itoa(p2), evbPrefix+strconv.Itoa(p3)
+			at := map[evbKey]bool{}
+			hasApp := false
+			for kk, v := range set {
+				at[kk] = v
+				hasApp = hasApp || (v && kk[0] == 1)
+			}
+			inside, goOn := make(chan struct{}), make(chan struct{})
+			var once sync.Once
+			release := func() { once.Do(func() { close(goOn) }) }
+			w.mu.Lock()
+			w.appAct[ski1] = func() {
+				close(inside)
+				<-goOn
+				spine.Events.Publish(api.EventPayload{Ski: ski3, EventType: api.EventTypeDataChange})
+				w.mu.Lock()
+				w.seq++
+				w.returned[ski3] = w.seq
+				w.mu.Unlock()
+			}
+			w.mu.Unlock()
+			done = append(done, op)
+			r.Eval("pubheld", "")
+			if !w.publish(ski1) {
+				release()
+				r.SpecFail("publish-blocked", done, "Publish of "+ski1+" did not return")
+				return false
+			}
+			if hasApp {
+				select {
+				case <-inside:
+				case <-time.After(evbWatchdog):
+					release()
+					atomic.StoreInt32(&evbWedged, 1)
+					r.SpecFail("not-delivered", done, ski1+" reached no application handler although one is subscribed")
+					return false
+				}
+			}
+			okB := w.publish(ski2)
+			if okB {
+				// SPEC, checked while the application handler of p1 is still inside HandleEvent
+				w.mu.Lock()
+				for kk, v := range at {
+					if !v || kk[0] != 0 {
+						continue
+					}
+					fin := false
+					for _, rec := range w.recs {
+						if rec.pub == ski2 && rec.level == 0 && rec.id == kk[1] && rec.end != 0 {
+							fin = true
+						}
+					}
+					if !fin {
+						r.SpecFail("core-not-finished-at-return", done, fmt.Sprintf("Publish of %s returned before core handler 0/%d had finished", ski2, kk[1]))
+					}
+				}
+				w.mu.Unlock()
+			}
+			release()
+			if !okB {
+				r.SpecFail("publish-waits-for-application-handler", done, fmt.Sprintf("an application handler of %s is still inside HandleEvent (held by the harness); Publish of %s from another goroutine did not return within %v. Goroutines inside the bus:\n%s", ski1, ski2, evbWatchdog, evbDump()))
+				return false
+			}
+			if !evbSettle(base) {
+				r.SpecFail("reentrant-handler-blocked", done, fmt.Sprintf("the application handler of %s that publishes %s from inside HandleEvent after another publication went through did not finish. Goroutines inside the bus:\n%s", ski1, ski3, evbDump()))
+				return false
+			}
+			w.mu.Lock()
+			_, notTaken := w.appAct[ski1]
+			delete(w.appAct, ski1)
+			w.mu.Unlock()
+			if hasApp == notTaken {
+				r.SpecFail("not-delivered", done, fmt.Sprintf("%s: application handler subscribed=%v, action performed=%v", ski1, hasApp, !notTaken))
+			}
+			impl = w.judge(r, done, ski1, at, ever, dup)
+			if !notTaken {
+				impl += ";" + w.judge(r, done, ski3, at, ever, dup)
+				acted = true
+			} else {
+				impl += ";-"
+			}
+			impl2 := w.judge(r, done, ski2, at, ever, dup)
+			want := d.Ask(fmt.Sprintf("pubapp %d pub %d", p1, p3))
+			want2 := d.Ask(fmt.Sprintf("pub %d", p2))
+			if impl != want || impl2 != want2 {
+				r.Mismatch(done, impl+" / "+impl2, want+" / "+want2, "bus op "+op)
+				return true
+			}
+			continue
 		case "pubq":
 			// two publishers at once; the first core handler of the first publication (un)subscribes (l,id)
 			// while the second publisher is queued
@@ -694,8 +791,10 @@ func evbGenHistory(rng interface{ Intn(int) int }, n int) []string {
 	var ops []string
 	for i := 0; i < n; i++ {
 		l, id := rng.Intn(2), 1+rng.Intn(3)
-		switch k := rng.Intn(25); {
-		case k >= 24:
+		switch k := rng.Intn(26); {
+		case k == 25:
+			ops = append(ops, "pubheld")
+		case k == 24:
 			ops = append(ops, fmt.Sprintf("pubq %s %d %d", []string{"sub", "unsub"}[rng.Intn(2)], l, id))
 		case k < 7:
 			ops = append(ops, fmt.Sprintf("sub %d %d", l, id))
@@ -831,11 +930,12 @@ func evbAsync(r *h.Report, base int) bool {
 }
 
 type evbFuncH struct {
-	f func(api.EventPayload)
+	f   func(api.EventPayload)
+	all bool // also events of skis other than the harness's own prefix (life-cycle scenario)
 }
 
 func (x *evbFuncH) HandleEvent(p api.EventPayload) {
-	if strings.HasPrefix(p.Ski, evbPrefix) || p.Ski == "evbpeer" {
+	if strings.HasPrefix(p.Ski, evbPrefix) || p.Ski == "evbpeer" || x.all || p.Ski == "evbA" || p.Ski == "evbB" {
 		atomic.AddInt64(&evbInflight, 1)
 		defer atomic.AddInt64(&evbInflight, -1)
 		x.f(p)
@@ -939,6 +1039,320 @@ func evbStack(r *h.Report, base int) bool {
 	return true
 }
 
+// ---------- the bus inside the stack: a small world with real peers
+
+type evbSW struct {
+	l      *spine.DeviceLocal
+	lc, dd api.FeatureLocalInterface
+	mu     sync.Mutex
+	ws     map[string]*h.W
+	ctr    uint64
+}
+
+func newEvbSW() *evbSW {
+	l := spine.NewDeviceLocal("b", "m", "s", "c", "HEMS", model.DeviceTypeTypeEnergyManagementSystem, model.NetworkManagementFeatureSetTypeSmart)
+	e1 := spine.NewEntityLocal(l, model.EntityTypeTypeCEM, spine.NewAddressEntityType([]uint{1}), 4*time.Second)
+	l.AddEntity(e1)
+	sw := &evbSW{l: l, ws: map[string]*h.W{}, ctr: 10}
+	sw.lc = e1.GetOrAddFeature(model.FeatureTypeTypeLoadControl, model.RoleTypeClient)
+	sw.dd = e1.GetOrAddFeature(model.FeatureTypeTypeDeviceDiagnosis, model.RoleTypeServer)
+	sw.dd.AddFunctionType(model.FunctionTypeDeviceDiagnosisStateData, true, false)
+	return sw
+}
+
+func (sw *evbSW) dev(ski string) string { return "dev-" + ski }
+
+func (sw *evbSW) connect(ski string) {
+	w := &h.W{}
+	sw.mu.Lock()
+	sw.ws[ski] = w
+	sw.mu.Unlock()
+	sw.l.SetupRemoteDevice(ski, w)
+}
+
+// call runs f (a call into the stack) under the watchdog.
+func (sw *evbSW) call(f func()) bool {
+	done := make(chan struct{})
+	go func() { f(); close(done) }()
+	select {
+	case <-done:
+		return true
+	case <-time.After(evbWatchdog):
+		atomic.StoreInt32(&evbWedged, 1)
+		return false
+	}
+}
+
+func (sw *evbSW) send(ski string, src, dst *model.FeatureAddressType, cl model.CmdClassifierType, ref *model.MsgCounterType, c model.CmdType) bool {
+	rd := sw.l.RemoteDeviceForSki(ski)
+	if rd == nil {
+		return true
+	}
+	sw.mu.Lock()
+	sw.ctr++
+	ctr := sw.ctr
+	sw.mu.Unlock()
+	b, _ := json.Marshal(model.Datagram{Datagram: model.DatagramType{Header: model.HeaderType{AddressSource: src, AddressDestination: dst, MsgCounter: util.Ptr(model.MsgCounterType(ctr)), MsgCounterReference: ref, CmdClassifier: &cl}, Payload: model.PayloadType{Cmd: []model.CmdType{c}}}})
+	return sw.call(func() { _, _ = rd.HandleSpineMesssage(b) })
+}
+
+// discover delivers the peer's detailed discovery reply (node management + a LoadControl server).
+func (sw *evbSW) discover(ski string) bool {
+	dev := sw.dev(ski)
+	feat := func(ent []uint, fid uint, ft model.FeatureTypeType, role model.RoleType) model.NodeManagementDetailedDiscoveryFeatureInformationType {
+		return model.NodeManagementDetailedDiscoveryFeatureInformationType{Description: &model.NetworkManagementFeatureDescriptionDataType{FeatureAddress: h.FA(dev, ent, fid), FeatureType: &ft, Role: &role}}
+	}
+	ent := func(e []uint, et model.EntityTypeType) model.NodeManagementDetailedDiscoveryEntityInformationType {
+		return model.NodeManagementDetailedDiscoveryEntityInformationType{Description: &model.NetworkManagementEntityDescriptionDataType{EntityAddress: &model.EntityAddressType{Device: util.Ptr(model.AddressDeviceType(dev)), Entity: spine.NewAddressEntityType(e)}, EntityType: &et}}
+	}
+	disc := &model.NodeManagementDetailedDiscoveryDataType{
+		DeviceInformation:  &model.NodeManagementDetailedDiscoveryDeviceInformationType{Description: &model.NetworkManagementDeviceDescriptionDataType{DeviceAddress: &model.DeviceAddressType{Device: util.Ptr(model.AddressDeviceType(dev))}}},
+		EntityInformation:  []model.NodeManagementDetailedDiscoveryEntityInformationType{ent([]uint{0}, model.EntityTypeTypeDeviceInformation), ent([]uint{1}, model.EntityTypeTypeEVSE)},
+		FeatureInformation: []model.NodeManagementDetailedDiscoveryFeatureInformationType{feat([]uint{0}, 0, model.FeatureTypeTypeNodeManagement, model.RoleTypeSpecial), feat([]uint{1}, 1, model.FeatureTypeTypeLoadControl, model.RoleTypeServer)},
+	}
+	one := model.MsgCounterType(1)
+	return sw.send(ski, h.FA(dev, []uint{0}, 0), h.FA("HEMS", []uint{0}, 0), model.CmdClassifierTypeReply, &one, model.CmdType{NodeManagementDetailedDiscoveryData: disc})
+}
+
+// notify delivers a LoadControl limit notification of the peer (the stack publishes a data-change event).
+func (sw *evbSW) notify(ski string, id uint) bool {
+	limits := &model.LoadControlLimitListDataType{LoadControlLimitData: []model.LoadControlLimitDataType{{LimitId: util.Ptr(model.LoadControlLimitIdType(id)), IsLimitActive: util.Ptr(true)}}}
+	return sw.send(ski, h.FA(sw.dev(ski), []uint{1}, 1), sw.lc.Address(), model.CmdClassifierTypeNotify, nil, model.CmdType{LoadControlLimitListData: limits})
+}
+
+// wire: what the stack's internal (core level) handler sends to a peer once its discovery reply is in:
+// the node-management subscription request and the use-case read.
+func (sw *evbSW) wire(ski string) (subReq, ucRead bool) {
+	sw.mu.Lock()
+	w := sw.ws[ski]
+	sw.mu.Unlock()
+	if w == nil {
+		return
+	}
+	w.Mu.Lock()
+	defer w.Mu.Unlock()
+	for _, m := range w.Msgs {
+		var d model.Datagram
+		if json.Unmarshal(m, &d) != nil || len(d.Datagram.Payload.Cmd) == 0 || d.Datagram.Header.CmdClassifier == nil {
+			continue
+		}
+		c := d.Datagram.Payload.Cmd[0]
+		if *d.Datagram.Header.CmdClassifier == model.CmdClassifierTypeCall && c.NodeManagementSubscriptionRequestCall != nil {
+			subReq = true
+		}
+		if *d.Datagram.Header.CmdClassifier == model.CmdClassifierTypeRead && c.NodeManagementUseCaseData != nil {
+			ucRead = true
+		}
+	}
+	return
+}
+
+func (sw *evbSW) close(base int) {
+	for _, rdv := range sw.l.RemoteDevices() {
+		ski := rdv.Ski()
+		evbGuard(func() { sw.l.RemoveRemoteDeviceConnection(ski) })
+	}
+	if atomic.LoadInt32(&evbWedged) == 0 {
+		h.Settle(base)
+	}
+}
+
+// evbHeldStack: an application handler is still inside HandleEvent (held by
+// the harness) for a data-change event the stack published; meanwhile the
+// stack must go on publishing — a second inbound notify of the same peer and
+// a publication from another goroutine return — and then the held handler
+// calls back into the stack with calls that publish themselves
+// (RemoveRemoteDeviceConnection of another peer, a nested Publish) and others
+// (SetData, RequestRemoteData, reads). Everything must return.
+func evbHeldStack(r *h.Report, base int) bool {
+	ops := []string{"held-application-handler: connect A, B; notify A (handler held inside HandleEvent); notify A again and Publish from other goroutines; handler removes peer B, writes data, publishes"}
+	r.Eval("held-application-handler", "")
+	sw := newEvbSW()
+	defer sw.close(base)
+	sw.connect("evbA")
+	sw.connect("evbB")
+	if !sw.discover("evbA") || !sw.discover("evbB") {
+		r.SpecFail("stack-blocked", ops, "HandleSpineMesssage (discovery reply) did not return")
+		return false
+	}
+	evbSettle(base)
+	inside, goOn := make(chan struct{}), make(chan struct{})
+	var once sync.Once
+	release := func() { once.Do(func() { close(goOn) }) }
+	defer release()
+	var events, held, finished, nested, other int32
+	var self *evbFuncH
+	self = &evbFuncH{f: func(p api.EventPayload) {
+		switch {
+		case p.Ski == evbPrefix+"from-held":
+			atomic.AddInt32(&nested, 1)
+			return
+		case p.Ski == evbPrefix+"other":
+			atomic.AddInt32(&other, 1)
+			return
+		case p.Ski != "evbA" || p.EventType != api.EventTypeDataChange || p.Function != model.FunctionTypeLoadControlLimitListData:
+			return
+		}
+		atomic.AddInt32(&events, 1)
+		if !atomic.CompareAndSwapInt32(&held, 0, 1) {
+			return
+		}
+		close(inside)
+		<-goOn
+		// call back into the stack from inside the handler, with calls that publish events themselves
+		sw.l.RemoveRemoteDeviceConnection("evbB")
+		sw.dd.SetData(model.FunctionTypeDeviceDiagnosisStateData, &model.DeviceDiagnosisStateDataType{OperatingState: util.Ptr(model.DeviceDiagnosisOperatingStateTypeNormalOperation)})
+		_ = p.Feature.DataCopy(model.FunctionTypeLoadControlLimitListData)
+		_, _ = p.LocalFeature.RequestRemoteData(model.FunctionTypeLoadControlLimitListData, nil, nil, p.Feature)
+		spine.Events.Publish(api.EventPayload{Ski: evbPrefix + "from-held", EventType: api.EventTypeDataChange})
+		atomic.AddInt32(&finished, 1)
+	}}
+	_ = spine.Events.Subscribe(self)
+	defer evbGuard(func() { _ = spine.Events.Unsubscribe(self) })
+	if !sw.notify("evbA", 1) {
+		r.SpecFail("stack-blocked", ops, "HandleSpineMesssage (notify) did not return")
+		return false
+	}
+	select {
+	case <-inside:
+	case <-time.After(evbWatchdog):
+		r.SpecFail("not-delivered", ops, "the data-change event of the inbound notify did not reach the application handler")
+		return true
+	}
+	// the handler is inside HandleEvent; the stack and other publishers must not wait for it
+	if !sw.notify("evbA", 2) {
+		r.SpecFail("publish-waits-for-application-handler", ops, fmt.Sprintf("an application handler is still handling the first data-change event (held); a second inbound notify (HandleSpineMesssage -> Publish) did not return within %v. Goroutines inside the bus:\n%s", evbWatchdog, evbDump()))
+		return false
+	}
+	if !sw.call(func() {
+		spine.Events.Publish(api.EventPayload{Ski: evbPrefix + "other", EventType: api.EventTypeDataChange})
+	}) {
+		r.SpecFail("publish-waits-for-application-handler", ops, fmt.Sprintf("an application handler is still inside HandleEvent (held); Publish from another goroutine did not return within %v. Goroutines inside the bus:\n%s", evbWatchdog, evbDump()))
+		return false
+	}
+	release()
+	if !evbSettle(base) {
+		r.SpecFail("reentrant-handler-blocked", ops, fmt.Sprintf("an application handler that removes another peer's connection (which publishes), writes local data, sends a request and publishes from inside HandleEvent, after further events went through, did not return. Goroutines inside the bus:\n%s", evbDump()))
+		return false
+	}
+	if e, f, n, o := atomic.LoadInt32(&events), atomic.LoadInt32(&finished), atomic.LoadInt32(&nested), atomic.LoadInt32(&other); e != 2 || f != 1 || n != 1 || o != 1 {
+		r.SpecFail("reentrant-not-served", ops, fmt.Sprintf("data-change events delivered %d (want 2), held handler finished %d (want 1), its own publication delivered %d (want 1), the other goroutine's %d (want 1)", e, f, n, o))
+	}
+	if sw.l.RemoteDeviceForSki("evbB") != nil {
+		r.SpecFail("reentrant-not-served", ops, "RemoveRemoteDeviceConnection called from inside the handler had no effect")
+	}
+	return true
+}
+
+// evbLifecycle: connection life cycle. The local device must be a core level
+// handler of the bus whenever a peer is connected: after EVERY (re)connection
+// and discovery reply the internal handler has sent the node-management
+// subscription request and the use-case read to that peer, and it has done so
+// before any application handler of the "device added" event runs.
+func evbLifecycle(r *h.Report, base int, rng interface{ Intn(int) int }, n int) bool {
+	sw := newEvbSW()
+	defer sw.close(base)
+	skis := []string{"evbA", "evbB", "evbC"}
+	type seen struct{ sub, uc bool }
+	var mu sync.Mutex
+	atStart := map[string]seen{}
+	obs := &evbFuncH{f: func(p api.EventPayload) {
+		if p.EventType != api.EventTypeDeviceChange || p.ChangeType != api.ElementChangeAdd {
+			return
+		}
+		if _, ok := p.Data.(*model.NodeManagementDetailedDiscoveryDataType); !ok {
+			return
+		}
+		s, u := sw.wire(p.Ski)
+		mu.Lock()
+		atStart[p.Ski] = seen{s, u}
+		mu.Unlock()
+	}}
+	obs.all = true
+	_ = spine.Events.Subscribe(obs)
+	defer evbGuard(func() { _ = spine.Events.Unsubscribe(obs) })
+	connected := map[string]bool{}
+	var ops []string
+	step := func(connect bool, ski string) bool {
+		if connect {
+			ops = append(ops, "lifecycle "+strconv.Itoa(n)+": connect "+ski+" + discovery reply")
+			mu.Lock()
+			delete(atStart, ski)
+			mu.Unlock()
+			sw.connect(ski)
+			connected[ski] = true
+			if !sw.discover(ski) {
+				r.SpecFail("stack-blocked", ops, "HandleSpineMesssage (discovery reply) did not return")
+				return false
+			}
+			if !evbSettle(base) {
+				r.SpecFail("reentrant-handler-blocked", ops, "handlers of the discovery events did not finish")
+				return false
+			}
+			sub, uc := sw.wire(ski)
+			mu.Lock()
+			st, ran := atStart[ski]
+			mu.Unlock()
+			switch {
+			case !sub || !uc:
+				r.SpecFail("internal-core-handler-not-served", ops, fmt.Sprintf("peer %s is connected and its discovery reply is in, but the stack's internal core handler did not act on the device-added event: node-management subscription request sent=%v, use-case read sent=%v (the local device is not subscribed to the bus while a peer is connected)", ski, sub, uc))
+			case !ran:
+				r.SpecFail("not-delivered", ops, "the device-added event of "+ski+" did not reach the application handler")
+			case !st.sub || !st.uc:
+				r.SpecFail("application-before-core", ops, fmt.Sprintf("the application handler of the device-added event of %s started before the internal core handler had finished (subscription request on the wire=%v, use-case read=%v at that moment)", ski, st.sub, st.uc))
+			}
+			r.Eval("lifecycle:connect", "")
+			return true
+		}
+		ops = append(ops, "lifecycle "+strconv.Itoa(n)+": disconnect "+ski)
+		delete(connected, ski)
+		if !sw.call(func() { sw.l.RemoveRemoteDeviceConnection(ski) }) {
+			r.SpecFail("stack-blocked", ops, "RemoveRemoteDeviceConnection did not return")
+			return false
+		}
+		evbSettle(base)
+		r.Eval("lifecycle:disconnect", "")
+		return true
+	}
+	// fixed spine of every sequence: connect one or two, disconnect ALL, connect the same SKI again, then a different one;
+	// random steps before, between and after
+	random := func(k int) bool {
+		for i := 0; i < k; i++ {
+			ski := skis[rng.Intn(3)]
+			if !step(!connected[ski], ski) {
+				return false
+			}
+		}
+		return true
+	}
+	dropAll := func() bool {
+		for _, ski := range skis {
+			if connected[ski] && !step(false, ski) {
+				return false
+			}
+		}
+		return true
+	}
+	first := skis[rng.Intn(3)]
+	if !random(rng.Intn(3)) || (!connected[first] && !step(true, first)) || !random(rng.Intn(2)) || !dropAll() {
+		return false
+	}
+	if !step(true, first) || !random(rng.Intn(3)) || !dropAll() {
+		return false
+	}
+	other := skis[(rng.Intn(2)+1+indexOf(skis, first))%3]
+	return step(true, other) && random(rng.Intn(4))
+}
+
+func indexOf(l []string, x string) int {
+	for i, y := range l {
+		if y == x {
+			return i
+		}
+	}
+	return 0
+}
+
 // evbQueued (deterministic, no model): two goroutines publish at the same
 // time and a core handler of the first publication (un)subscribes — itself,
 // another core handler, an application handler — while the second publisher is
@@ -1008,6 +1422,8 @@ type evbCH struct {
 	toggle    []*evbCH // a re-entrant CORE handler subscribes / unsubscribes these (both levels) from inside HandleEvent
 	selfTog   bool     // a CORE handler that unsubscribes and re-subscribes itself from inside HandleEvent
 	k         int64
+	hold      chan struct{} // an APPLICATION handler whose first invocation stays inside HandleEvent until this is closed
+	held      int32
 }
 
 func evbCSub(x *evbCH) {
@@ -1053,6 +1469,14 @@ func (x *evbCH) HandleEvent(p api.EventPayload) {
 				evbCUnsub(t)
 			}
 			evbCSub(x) // itself: no effect
+		}
+		return
+	}
+	if x.hold != nil && x.level == 1 && atomic.CompareAndSwapInt32(&x.held, 0, 1) {
+		// stays inside HandleEvent for the rest of the round: no publication may wait for it
+		select {
+		case <-x.hold:
+		case <-time.After(20 * evbWatchdog):
 		}
 		return
 	}
@@ -1124,6 +1548,7 @@ func evbConcurrent(r *h.Report, base int, round, P, N int) bool {
 	var clock int64
 	spans := make([][]evbSpan, len(churn))
 	stop := make(chan struct{})
+	stable[2].hold = stop // application handler 1/3: its first invocation is held until the publishers are done
 	var cwg sync.WaitGroup
 	for c := range churn {
 		cwg.Add(1)
@@ -1266,13 +1691,13 @@ wait:
 	return true
 }
 
-const evbRule = "sequential: random histories of subscribe/unsubscribe on both levels, publications, (un)subscription from inside the first core handler, (un)subscription and publication from inside an application handler, two publishers at once with the first core handler (un)subscribing while the second publisher is parked inside Publish (pubq), on the process-wide spine.Events, compared op by op with Spine.Bus (core deliveries in order | application deliveries as a set); non-trivial = a history with a publication that reached both levels and an action performed inside an application handler (distinct by op text). Concurrent rounds and re-entrancy scenarios: SPEC monitor only."
+const evbRule = "sequential: random histories of subscribe/unsubscribe on both levels, publications, (un)subscription from inside the first core handler, (un)subscription and publication from inside an application handler, two publishers at once with the first core handler (un)subscribing while the second publisher is parked inside Publish (pubq), an application handler held inside HandleEvent while another goroutine publishes and then publishing itself (pubheld), on the process-wide spine.Events, compared op by op with Spine.Bus (core deliveries in order | application deliveries as a set); non-trivial = a history with a publication that reached both levels and an action performed inside an application handler (distinct by op text). Concurrent rounds and re-entrancy scenarios: SPEC monitor only."
 
 func evbIsScenarioReplay(ops []string) bool {
 	if len(ops) == 0 {
 		return false
 	}
-	for _, p := range []string{"concurrent", "reentrant", "stack", "application", "queued-publisher"} {
+	for _, p := range []string{"concurrent", "reentrant", "stack", "application", "queued-publisher", "held-application-handler", "lifecycle"} {
 		if strings.HasPrefix(ops[0], p) {
 			return true
 		}
@@ -1304,6 +1729,7 @@ func evbSequential(r *h.Report) bool {
 		{"sub 1 1", "pubapp sub 1 2", "pub", "pubapp unsub 1 2", "pub", "pubapp pub", "unsub 1 1", "pub"},                                   // handler (un)subscribes another
 		{"pub", "pubsub 1 1", "pubapp pub", "sub 0 3", "pubsub 1 1", "pub", "pubunsub 0 3", "pub"},                                          // nothing subscribed; core subscribes an application handler
 		{"sub 0 1", "sub 0 2", "sub 1 1", "pubq unsub 0 2", "pubq sub 1 2", "pubq unsub 0 1", "pub", "pubq sub 0 1", "pubq sub 0 1", "pub"}, // two publishers at once, core handler (un)subscribes while the second is queued
+		{"sub 1 1", "sub 1 2", "sub 0 1", "pubheld", "pub", "unsub 1 1", "pubheld", "unsub 1 2", "pubheld"},                                 // an application handler is held inside HandleEvent while others publish, then publishes itself
 	}
 	for _, c := range corpus {
 		if !evbRunHistory(r, d, c, base) {
@@ -1351,7 +1777,7 @@ func evbSequential(r *h.Report) bool {
 	pubs := r.Dist["pub"] + r.Dist["pubsub"] + r.Dist["pubunsub"]
 	appTotal, appDone := 0, 0
 	for k, n := range r.Dist {
-		if strings.HasPrefix(k, "pubq") {
+		if strings.HasPrefix(k, "pubq") || k == "pubheld" {
 			pubs += n
 		}
 		if strings.HasPrefix(k, "pubapp-") {
@@ -1456,6 +1882,18 @@ func TestEventBusRace(t *testing.T) {
 }
 
 func evbScenarios(r *h.Report, base int) bool {
+	r.Eval("scenarios", "")
+	for i := 0; i < h.Scale(5, 40); i++ {
+		if !evbHeldStack(r, base) {
+			return false
+		}
+	}
+	lrng := h.Rng(1515)
+	for i := 0; i < h.Scale(15, 150); i++ {
+		if !evbLifecycle(r, base, lrng, i) {
+			return false
+		}
+	}
 	for i := 0; i < h.Scale(20, 200); i++ {
 		if !evbReentrant(r, base, i) {
 			return false
